@@ -143,6 +143,10 @@ def check_property(pid, tier="quick", seed=0, out=sys.stdout):
     discharge(all_obs, timeout_s=timeout, both=(tier == "thorough"))
     # ---- verdicts ----
     kf = known_findings()
+    ledger = {}
+    lp = os.path.join(VERIF, "baseline_obligations.json")
+    if os.path.exists(lp):
+        ledger = json.load(open(lp))
     known = [f for f in kf.get("findings", []) if f["property"] == pid]
     violations, undecided, crashes, known_hits = [], [], [], []
     rdir = os.path.join(VERIF, "replays", pid)
@@ -158,14 +162,18 @@ def check_property(pid, tier="quick", seed=0, out=sys.stdout):
             if ob.result == "unsat":
                 continue
             if ob.result in ("unknown",):
-                undecided.append(f"{ob.oid}: solver answered unknown {ob.note}")
-                continue
+                # an obligation of a function that was completely discharged on the pinned tree and is not any more:
+                # reported as a violation without a counter-model; anything else stays undecided
+                led = ledger.get(pid, {}).get(con.qualname)
+                if not (led and led.get("all_discharged")):
+                    undecided.append(f"{ob.oid}: solver answered unknown {ob.note}")
+                    continue
             if ob.result in ("error", "disagree"):
                 crashes.append(f"{ob.oid}: {ob.result} {ob.note}")
                 continue
             # sat: a counter-model
             fdef = repo.lookup(con.qualname)
-            model = resolve_model(ob.pc, ob.goal)
+            model = resolve_model(ob.pc, ob.goal) if ob.result == "sat" else None
             custom = getattr(con, "replay", None)
             rep = custom(repo, con, fdef, ob, model) if custom else native_replay(repo, con, fdef, ob, model)
             sig = rep.get("signature") or ob.oid.split("@")[0]
@@ -174,6 +182,7 @@ def check_property(pid, tier="quick", seed=0, out=sys.stdout):
                 if f.get("obligation") == ob.oid.split("@")[0] and (not f.get("signature") or f["signature"] == sig):
                     hit = f
             rec = {
+                "verdict": "counter-model" if ob.result == "sat" else "obligation discharged on the pinned tree is no longer discharged (solver: unknown)",
                 "property": pid,
                 "obligation": ob.oid,
                 "function": con.qualname,
@@ -249,6 +258,11 @@ def check_property(pid, tier="quick", seed=0, out=sys.stdout):
         tail = "" if rep.get("reproduced") else " no-failing-input-found"
         print(f"  failed obligation {ob.oid} ({ob.note})", file=out)
         print(f"VIOLATION property={pid} replay={fname}{tail}", file=out)
+    if os.environ.get("PYVC_WRITE_LEDGER"):
+        ledger.setdefault(pid, {})
+        ledger[pid] = {con.qualname: {"obligations": len(r.obligations), "all_discharged": bool(r.obligations) and all(o.result == "unsat" for o in r.obligations) and not r.undecided}
+                       for con, r in results}
+        json.dump(ledger, open(lp, "w"), indent=1, sort_keys=True)
     if violations:
         return 1
     if crashes:
